@@ -44,7 +44,15 @@ class TypeScriptSRPAnalyzer(TypeScriptBaseAnalyzer):
         Returns:
             List of all class declaration nodes
         """
-        return self.walk_tree(root_node, "class_declaration")
+        # Abstract classes and class expressions (`const X = class {...}`, `export default class {...}`)
+        # are classes too; the unnamed "class" nodes are the keyword tokens
+        classes = [
+            node
+            for node_type in ("class_declaration", "abstract_class_declaration", "class")
+            for node in self.walk_tree(root_node, node_type)
+            if node.is_named
+        ]
+        return sorted(classes, key=lambda node: node.start_byte)
 
     def analyze_class(self, class_node: Any, source: str, config: SRPConfig) -> dict[str, Any]:
         """Analyze a TypeScript class for SRP metrics.
